@@ -139,6 +139,11 @@ EvWriteTo(e) ==
   IN /\ NoteIf(~WriteOutcomeOK(t, bytes, e.writes, e.n, e.err, e.strN), "C10",
                "WriteTo does not hand over one frame with a truthful count", [n |-> e.n, err |-> e.err, strN |-> e.strN])
      /\ (Has(e, "obs") => NoteIf(ObsDiff(o, e.obs) # {}, "C11", "WriteTo changed what the accessors return", [keys |-> ObsDiff(o, e.obs)]))
+     /\ IF good /\ Len(bytes) >= 2
+        THEN LET rl == VBIRead(Tail(bytes)) IN
+             NoteIf(rl.kind # "value" \/ (rl.kind = "value" /\ (~rl.minimal \/ rl.val # Len(bytes) - 1 - rl.width)), "C15",
+                    "remaining length not written as the minimal form of the number of bytes that follow", [head |-> SubSeq(bytes, 1, IF Len(bytes) < 6 THEN Len(bytes) ELSE 6), len |-> Len(bytes)])
+        ELSE TRUE
      /\ IF good /\ t # 0 /\ InC02Domain(t, o) /\ Framed(bytes)
         THEN LET d == StrictDecode(bytes) IN
              IF ~d.ok THEN Note("C02", "frame rejected by the strict reading of MQTT v5.0", [why |-> d.why, at |-> d.at, frame |-> bytes])
@@ -259,6 +264,46 @@ EvAbort(e) ==
   /\ UNCHANGED <<pool, from, contig, enc, memo, diag, prog>> /\ KeepStream
 EvOther(e) == UNCHANGED <<pool, from, contig, enc, memo, diag, prog>> /\ KeepStream
 
+(* variable byte integers through hook H1 (C15).  The driver also logs the answer of its own   *)
+(* transcription of VBI4 / VBIRead (used by the exhaustive Go sweep); it is validated here.     *)
+EvVBIEnc(e) ==
+  /\ NoteIf(e.bytes # VBI(e.v), "C15", "value not written in the unique minimal form", [v |-> e.v, bytes |-> e.bytes])
+  /\ NoteIf(e.ref # VBI4(e.v) \/ VBI(e.v) # VBI4(e.v), "HARNESS", "transcription of VBI4 disagrees with the specification", [v |-> e.v])
+  /\ UNCHANGED <<pool, from, contig, enc, memo, diag, prog>> /\ KeepStream
+
+EvVBIDec(e) ==
+  LET r == VBIRead(e.bytes)
+      agree == e.mem.ok = e.stream.ok /\ (e.mem.ok => e.mem.val = e.stream.val)
+  IN
+  /\ NoteIf(~agree, "C15", "streaming and in-memory decoder disagree", [bytes |-> e.bytes, mem |-> e.mem, stream |-> e.stream])
+  /\ IF r.kind = "reject"
+     THEN NoteIf(e.mem.ok \/ e.stream.ok, "C15", "sequence that must be rejected was decoded",
+                 [bytes |-> e.bytes, why |-> r.why, mem |-> e.mem.ok, stream |-> e.stream.ok])
+     ELSE IF r.minimal
+     THEN /\ NoteIf(~(e.mem.ok /\ e.mem.val = r.val /\ e.mem.width = r.width), "C15",
+                     "in-memory decoder: wrong value or wrong number of bytes advanced", [bytes |-> e.bytes, mem |-> e.mem, want |-> r])
+          /\ NoteIf(~(e.stream.ok /\ e.stream.val = r.val /\ e.stream.n = r.width), "C15",
+                     "streaming decoder: wrong value or wrong number of bytes read", [bytes |-> e.bytes, stream |-> e.stream, want |-> r])
+     ELSE TRUE
+  /\ NoteIf((e.ref.kind = 1) # (r.kind = "value")
+            \/ (r.kind = "value" /\ (e.ref.val # r.val \/ e.ref.width # r.width \/ e.ref.minimal # r.minimal)),
+            "HARNESS", "transcription of VBIRead disagrees with the specification", [bytes |-> e.bytes])
+  /\ UNCHANGED <<pool, from, contig, enc, memo, diag, prog>> /\ KeepStream
+
+(* concurrent read-only operations: every goroutine completed, produced the sequential bytes, changed nothing *)
+EvConc(e) ==
+  /\ \A j \in 1..Len(e.results) :
+        LET r == e.results[j] IN
+        /\ NoteIf(~r.ok, "C13", "a concurrent read-only operation failed", [op |-> r.op, h |-> r.h])
+        /\ IF r.op \in {"WriteTo", "ReadPacket"} /\ r.h \in DOMAIN enc
+           THEN NoteIf(~r.same \/ r.bytes # enc[r.h].bytes, "C13", "concurrent WriteTo differs from the sequential encoding", [op |-> r.op, h |-> r.h])
+           ELSE TRUE
+  /\ Bystanders(e, 0)
+  /\ UNCHANGED <<pool, from, contig, enc, memo, diag, prog>> /\ KeepStream
+EvRace(e) ==
+  /\ Note("C13", "data race reported by the Go race detector", [sites |-> e.sites])
+  /\ UNCHANGED <<pool, from, contig, enc, memo, diag, prog>> /\ KeepStream
+
 Step(e) ==
   IF e.ev = "Reset" THEN EvReset(e)
   ELSE IF e.ev = "New" THEN EvNew(e)
@@ -276,6 +321,10 @@ Step(e) ==
   ELSE IF e.ev = "Panic" THEN EvPanic(e)
   ELSE IF e.ev = "Budget" THEN EvBudget(e)
   ELSE IF e.ev = "Abort" THEN EvAbort(e)
+  ELSE IF e.ev = "VBIEnc" THEN EvVBIEnc(e)
+  ELSE IF e.ev = "VBIDec" THEN EvVBIDec(e)
+  ELSE IF e.ev = "Conc" THEN EvConc(e)
+  ELSE IF e.ev = "Race" THEN EvRace(e)
   ELSE EvOther(e)                                  \* Done, Skip, Buf
 
 (***************************************************************************)
